@@ -335,6 +335,14 @@ class WorkerPool:
                             self._cache[MAIN_PROCESS]._set(success=False, result=err)
 
                     if job_type == JobType.APPLY:
+                        # The worker took this task from its queue, but it will never mark it as done. Without this the
+                        # task queues can't be joined anymore
+                        if job is not None:
+                            try:
+                                self._worker_comms.task_done(worker_id)
+                            except ValueError:
+                                pass
+
                         # When a worker of an apply task dies unexpectedly we restart the worker and continue
                         self._worker_comms.reinit_comms_for_worker(worker_id)
                         self._start_worker(worker_id)
